@@ -155,8 +155,14 @@ Print Assumptions C12_converges_one_hop_example.
    (the rule that raised SlashRequired) is the first hit of the second.
    What remains outside: rules with a trailing path converter.  There a path part consumes several segments and
    "/a/b" vs "/a/b/" can be split differently between a non-greedy path part and what follows; for these
-   C12_converges_one_hop (a direct match of a priority-minimal serving rule) is what is proved, and the harness
-   (judge_c12) checks the identity of rule and arguments on every followed redirect. *)
+   C12_converges_one_hop (a direct match of a priority-minimal serving rule) is what is proved.  Neither a proof nor a
+   refutation of the same-rule clause was obtained for them: extending Converge.v needs, per tree node, the number of
+   captures made so far (the hit status of a candidate behind a non-suffixed path part must not depend on the captured
+   text, which holds only at the position of the path converter).  On the implementation no counter-example exists in
+   the campaigns: tools/c12.py same_rule_campaign reads the rule and the captures off the interpreter at the moment
+   SlashRequired is raised and requires the redirect target to be answered by that rule with those arguments (maps of
+   path-tail rules, 40k+ redirects in a one-off run, ~1.1k per quick run); judge_c12 checks endpoint and arguments on
+   every followed redirect. *)
 Theorem C12_converges : forall m a p me u,
   (forall r, In r (m_rules m) -> rule_wf3 r = true) ->
   router_match m a p me = RedirectTo u ->
@@ -254,6 +260,68 @@ Example C12_alias_converge_example :
      = BOk (HTTP ++ [COLON; SLASH; SLASH] ++ a_server ex_adapter ++ [47; 103]).
 Proof. exact cx_alias_converge. Qed.
 Print Assumptions C12_alias_converge_example.
+
+(* the scheme of a redirect: every URL make_redirect_url produces carries the scheme the adapter is bound with; an adapter
+   bound to a websocket request (url_scheme ws / wss, set by bind_to_environ from the Upgrade header - pinned in Gen.v)
+   redirects to a ws:// resp. wss:// URL.  The subdomain an adapter is bound with is an input of the model: the harness
+   resolves Map.default_subdomain and the "<invalid>" subdomain of a server_name mismatch (both statements pinned). *)
+Theorem C12_websocket_redirect_scheme : forall m a path dp,
+  a_websocket a = true ->
+  (a_scheme a = WS \/ a_scheme a = WSS)
+  /\ exists rest, make_redirect_url m a path dp = a_scheme a ++ [COLON; SLASH; SLASH] ++ rest.
+Proof. exact websocket_redirect_scheme. Qed.
+Print Assumptions C12_websocket_redirect_scheme.
+
+Example C12_websocket_redirect_example :
+  a_websocket ex_adapter_ws = true
+  /\ map_match no_hooks (mk_map [{| r_idx := 0; r_endpoint := 0; r_dom := SLit []; r_segs := [SDyn [] (CInt 0 None (Some 5%Z) false) [97] []];
+                                    r_tail := None; r_branch := true; r_methods := None; r_strict_opt := None; r_merge_opt := None;
+                                    r_websocket := true; r_alias := false; r_defaults := [] |}]) ex_adapter_ws [47; 51] GET
+     = RedirectTo (WS ++ [COLON; SLASH; SLASH] ++ a_server ex_adapter ++ [47; 51; 47]).
+Proof. exact ex_ws_redirect. Qed.
+Print Assumptions C12_websocket_redirect_example.
+
+(* Rule.redirect_to with a string template (C12/Model.v: rt_subst, redirect_to_url, router_match_rt; the callable form is a
+   user function and outside the model).  A rule with redirect_to answers with RequestRedirect to exactly the substituted
+   target, after the defaults / alias canonicalisation; every other outcome is that of router_match. *)
+Theorem C12_redirect_to_target : forall rt m a p me,
+  match router_match m a p me with
+  | Match r vs =>
+      match rt (r_idx r) with
+      | None => router_match_rt rt m a p me = Match r vs
+      | Some tpl => forall u, redirect_to_url m a r vs tpl = BOk u -> router_match_rt rt m a p me = RedirectTo u
+      end
+  | o => router_match_rt rt m a p me = o
+  end.
+Proof. exact router_match_rt_spec. Qed.
+Print Assumptions C12_redirect_to_target.
+
+(* the substitution: plain text, a variable in angle brackets, the rest *)
+Theorem C12_redirect_to_subst : forall cs vals pre n rest v cv,
+  mem LT pre = false -> mem GT n = false -> n <> [] ->
+  dict_get n vals = Some v -> conv_get n cs = Some cv ->
+  rt_subst cs vals None (pre ++ LT :: n ++ GT :: rest)
+  = bbind (to_url cv v) (fun u => bbind (rt_subst cs vals None rest) (fun t => BOk (pre ++ u ++ t))).
+Proof. exact rt_subst_var. Qed.
+Print Assumptions C12_redirect_to_subst.
+
+(* where it points: scheme://host/script-root/ of the adapter followed by the substituted template, a relative reference
+   without leading slash (the on-host clause for relative templates; unlike the router's own redirects the bound query
+   string is not appended).  Absolute templates, templates with a scheme or with dot segments go through urljoin's
+   resolution, which is not modelled (BUnsupported). *)
+Theorem C12_redirect_to_on_base : forall m a r vals tpl u,
+  redirect_to_url m a r vals tpl = BOk u ->
+  exists t, rt_subst (rule_convs r) vals None tpl = BOk t /\ u = redirect_base m a ++ t
+    /\ starts_with [SLASH] t = false /\ t <> [].
+Proof. exact redirect_to_on_base. Qed.
+Print Assumptions C12_redirect_to_on_base.
+
+(* Rule('/<int(max=5):a>/', redirect_to='new/<a>/x'): '/3/' -> http://example.com/new/3/x *)
+Example C12_redirect_to_example :
+  router_match_rt (fun i => if i =? 0 then Some [110; 101; 119; 47; 60; 97; 62; 47; 120] else None) ex_map2 ex_adapter [47; 51; 47] GET
+  = RedirectTo (HTTP ++ [COLON; SLASH; SLASH] ++ a_server ex_adapter ++ [47; 110; 101; 119; 47; 51; 47; 120]).
+Proof. exact ex_redirect_to. Qed.
+Print Assumptions C12_redirect_to_example.
 
 (* Two behaviours observed while building this check, and why they are not findings of C12:
 
